@@ -10,30 +10,18 @@ def key_fn(case, obs, verdict):
 
 
 def run(ctx):
-    rule = ("non-trivial: every grpc code case; shoot cases with auto-tag enabled and a path of >=2 bytes; "
-            "errno cases with at least one wrapper; ids cases with >=2 goroutines and >=2 ids; distinct = distinct case lines")
-    cov = {"rule": rule, "evaluations": 0, "distinct_nontrivial": 0}
-    ok_t = common.translate(ctx, "grpcstatus", "GrpcStatusGen.v") and common.translate(ctx, "consts", "ConstGen.v")
-    model_ok = ok_t and ctx.coq(["Extract/ExtractC10.vo"], what="model+extraction")
-    proofs_ok = model_ok and ctx.properties(extra_files=["Gen/GrpcStatus_bridge.v", "Gen/Const_bridge.v"])
-    h = ctx.build_harness("hC10")
-    m = ctx.ocaml_model("mC10", "C10_model", "C10") if model_ok else None
-    if h and m:
-        st = common.correspondence(ctx, h, m, key_fn=key_fn)
-        if st:
-            cov.update(st)
-        # a broken proof/bridge/correspondence: widen the search for a concrete failing input
-        if ctx.brokens and not ctx.violations and ctx.quick() and not ctx.replay:
-            st2 = common.correspondence(ctx, h, m, key_fn=key_fn, tier="thorough", label="escalated")
-            if st2:
-                cov["escalated_evaluations"] = st2["evaluations"]
-    cov["trusted_base_extra"] = [
-        "translator harness/cmd/translate (grpcstatus: go/ast over ConvertGrpcStatus + markdown table; consts: values compiled from /repo)",
-        "extraction: ExtrOcamlBasic only; OCaml driver ocaml/C10/main.ml + ocaml/common/conv.ml (zarith for decimal I/O)",
-        "correspondence harness harness/cmd/hC10 (real ConvertGrpcStatus, BaseGun.Shoot with scripted client, Sample.SetErr, ProviderBase.NextID)",
-        "modelled, not verified: which Go error values the network stack produces; errors.Cause/Underlying unwrapping is modelled by the EWrap constructor",
-    ]
-    ctx.finish(cov, assumptions=[
-        "status.Convert/codes of grpc-go behave as documented",
-        "sync/atomic Add is linearizable (ids)",
-    ])
+    common.standard(
+        ctx, harness="hC10", extracted="C10_model", driver_dir="C10",
+        rule=("non-trivial: every grpc code case; shoot cases with auto-tag enabled and a path of >=2 bytes; "
+              "errno cases with at least one wrapper; ids cases with >=2 goroutines and >=2 ids; distinct = distinct case lines"),
+        key_fn=key_fn,
+        translators=[("grpcstatus", "GrpcStatusGen.v"), ("consts", "ConstGen.v")],
+        bridge_files=["Gen/GrpcStatus_bridge.v", "Gen/Const_bridge.v"],
+        trusted=[
+            "translator harness/cmd/translate (grpcstatus: go/ast over ConvertGrpcStatus + markdown table; consts: values compiled from /repo)",
+            "extraction: ExtrOcamlBasic only; OCaml driver ocaml/C10/main.ml + ocaml/common/conv.ml (zarith for decimal I/O)",
+            "correspondence harness harness/cmd/hC10 (real ConvertGrpcStatus, BaseGun.Shoot with scripted client, Sample.SetErr, ProviderBase.NextID)",
+            "modelled, not verified: which Go error values the network stack produces; errors.Cause/Underlying unwrapping is modelled by the EWrap constructor",
+        ],
+        assumptions=["status.Convert/codes of grpc-go behave as documented", "sync/atomic Add is linearizable (ids)"],
+    )
